@@ -124,11 +124,29 @@ def _run1(fn, start, env, stop_pred, P, call_value, max_steps, exit_blocks, fork
     steps = 0
     unknown = set()
 
+    def conc(e):
+        """replace array indices that evaluate to integers by those integers (a[i] -> a[2]), innermost first"""
+        if not isinstance(e, list) or not e:
+            return e
+        if not isinstance(e[0], str):
+            return [conc(x) for x in e]
+        if e[0] in ("int", "str", "var", "fn", "null", "other", "sizeof", "float", "vaarg"):
+            return e
+        if e[0] == "call":
+            return ["call", conc(e[1]) if isinstance(e[1], list) else e[1], [conc(a) for a in e[2]]] + e[3:]
+        r = [e[0]] + [conc(x) if isinstance(x, list) else x for x in e[1:]]
+        if e[0] == "idx" and not is_e(strip(r[2]), "int"):
+            try:
+                r[2] = ["int", evalx(r[2], env, P)]
+            except EvalError:
+                pass
+        return r
+
     def ev(e):
-        return evalx(normx(e), env, P)
+        return evalx(conc(normx(e)), env, P)
 
     def setv(lhs, v):
-        l = strip(normx(lhs))
+        l = strip(conc(normx(lhs)))
         if is_e(l, "var"):
             k = l[1]
         else:
@@ -141,7 +159,7 @@ def _run1(fn, start, env, stop_pred, P, call_value, max_steps, exit_blocks, fork
             unknown.discard(k)
 
     def getv(lhs):
-        l = strip(normx(lhs))
+        l = strip(conc(normx(lhs)))
         k = l[1] if is_e(l, "var") else key(l)
         return env.get(k)
 
